@@ -583,3 +583,194 @@ func genCommandCase(t *rapid.T) progCase {
 	c.SQL = "DECLARE tmp VIEW (c1, c2, c3); INSERT INTO tmp VALUES (1, 'a', 'x'); " + sql
 	return c
 }
+
+// ---- composed queries -------------------------------------------------------
+//
+// One feature per query does not reach the state that features share (sort
+// value caches, record capacities, grouping): these queries stack them. A
+// set operation of branches that project a few columns out of tables of
+// DIFFERENT widths sits in FROM; analytic functions with PARTITION BY / ORDER BY
+// expressions, GROUP BY and an outer ORDER BY on computed columns work on it.
+
+var composeTables = "DECLARE a VIEW (a1); INSERT INTO a VALUES (3), (1), (NULL), (2); " +
+	"DECLARE b VIEW (b1, b2); INSERT INTO b VALUES (2, 'q'), (1, 'p'), (1, NULL), (5, 'r'); " +
+	"DECLARE c VIEW (c1, c2, c3); INSERT INTO c VALUES (1, 'a', 'x'), (4, 'b', NULL), (0, 'c', 'z'); " +
+	"DECLARE e VIEW (e1, e2, e3, e4, e5); INSERT INTO e VALUES (0, 'm', 1.5, TRUE, 'w'), (7, 'n', NULL, FALSE, 'v'), (-1, 'o', 2, NULL, 'u'), (2, 'm', 3, TRUE, NULL); " +
+	"DECLARE z VIEW (z1, z2); "
+
+type composeTable struct {
+	name string
+	cols []string
+}
+
+var composeSources = []composeTable{
+	{"a", []string{"a1"}}, {"b", []string{"b1", "b2"}}, {"c", []string{"c1", "c2", "c3"}}, {"e", []string{"e1", "e2", "e3", "e4", "e5"}}, {"z", []string{"z1", "z2"}},
+	{"t", []string{"c1", "c2", "c3"}}, {"t2", []string{"c1", "c2"}}, {"u", []string{"c1", "c2", "n"}}, {"l", []string{"c1", "c2"}},
+}
+
+// Genuine defect found by this check, FIXED in /repo (c6f7b20): GROUP BY on a field that does not exist
+// over an input WITHOUT rows ends in "Fatal Error: index out of range [-1]"
+// (View.group, lib/query/view.go:238-240 ignores the error of
+// Header.SearchIndex and marks Header[-1] as group key; with rows the key
+// expression fails earlier with the documented "field does not exist"). Minimal:
+// DECLARE v VIEW (a); SELECT COUNT(*) FROM v GROUP BY nosuch;
+// While true the first branch of a set operation always names its columns
+// x1..xk, so the outer query never groups by an unknown field (signature
+// group_by_unknown_field_empty_input_fatal).
+const avoidKnownGroupByUnknownField = false
+
+// genBranch projects k columns (named x1..xk) out of a table; wide: prefer a table wider than k.
+// first: the branch that names the columns of the set operation.
+func genBranch(t *rapid.T, k int, wide bool, first bool) string {
+	var cands []composeTable
+	for _, s := range composeSources {
+		if (wide && len(s.cols) > k) || (!wide && len(s.cols) == k) {
+			cands = append(cands, s)
+		}
+	}
+	if len(cands) == 0 {
+		for _, s := range composeSources {
+			if len(s.cols) >= k {
+				cands = append(cands, s)
+			}
+		}
+	}
+	src := fw.PickU(t, "branchTable", cands)
+	starPct := 50
+	if first {
+		starPct = 10
+		if avoidKnownGroupByUnknownField {
+			starPct = 0
+		}
+	}
+	if !wide && len(src.cols) == k && fw.Pct(t, "branchStar", starPct) {
+		return "SELECT * FROM " + src.name
+	}
+	var proj []string
+	for i := 0; i < k; i++ {
+		col := src.cols[fw.Uniform(t, "branchCol", len(src.cols))]
+		e := col
+		switch fw.Weighted(t, "branchExpr", []int{70, 10, 10, 5, 5}) {
+		case 1:
+			e = col + " + 1"
+		case 2:
+			e = col + " || '!'"
+		case 3:
+			e = "NULL"
+		case 4:
+			e = fmt.Sprintf("%d", fw.Range(t, "branchConst", -1, 3))
+		}
+		proj = append(proj, fmt.Sprintf("%s AS x%d", e, i+1))
+	}
+	q := "SELECT " + strings.Join(proj, ", ") + " FROM " + src.name
+	if fw.Pct(t, "branchWhere", 25) {
+		q += " WHERE " + fw.PickU(t, "branchCond", []string{src.cols[0] + " > 0", src.cols[0] + " IS NOT NULL", "TRUE", "FALSE", src.cols[0] + " IN (1, 2)"})
+	}
+	return q
+}
+
+func genSetOperation(t *rapid.T, k int) string {
+	n := 2 + fw.Weighted(t, "setBranches", []int{70, 30})
+	parts := []string{genBranch(t, k, fw.Pct(t, "firstWide", 75), true)}
+	for i := 1; i < n; i++ {
+		op := fw.PickU(t, "setOp", []string{"UNION ALL", "UNION ALL", "UNION ALL", "UNION", "EXCEPT", "INTERSECT", "EXCEPT ALL", "INTERSECT ALL"})
+		parts = append(parts, op, genBranch(t, k, fw.Pct(t, "otherWide", 35), false))
+	}
+	return strings.Join(parts, " ")
+}
+
+func genComposeCase(t *rapid.T) progCase {
+	c := progCase{Kind: "compose", Files: true}
+	k := fw.Range(t, "width", 1, 3)
+	x := func(label string) string { return fmt.Sprintf("x%d", 1+fw.Uniform(t, label, k)) }
+	setop := genSetOperation(t, k)
+	from := "(" + setop + ") s"
+	switch fw.Weighted(t, "fromShape", []int{60, 12, 10, 10, 8}) {
+	case 1:
+		from = "(SELECT * FROM (" + setop + ") i WHERE TRUE) s"
+	case 2:
+		from = "(" + setop + ") s CROSS JOIN (SELECT 1 AS j1 UNION ALL SELECT 2) j"
+	case 3:
+		from = "(" + setop + ") s LEFT JOIN b ON s.x1 = b.b1"
+	case 4:
+		from = "(" + setop + " ORDER BY 1 LIMIT 5) s"
+	}
+	pexpr := func() string {
+		return fw.PickU(t, "partExpr", []string{x("px"), x("px") + " % 2", x("px") + " || 'p'", "1", "NULL", x("px") + ", " + x("px2"), "(" + x("px") + " IS NULL)"})
+	}
+	oexpr := func() string {
+		return fw.PickU(t, "ordExpr", []string{x("ox"), x("ox") + " DESC", x("ox") + " + 0", "-" + x("ox"), x("ox") + " || " + x("ox2"), x("ox") + " DESC NULLS FIRST, " + x("ox2"), "1", "COALESCE(" + x("ox") + ", 0) DESC"})
+	}
+	analytic := func(alias string) string {
+		fn := fw.PickU(t, "anaFn", []string{"ROW_NUMBER()", "RANK()", "DENSE_RANK()", "SUM(" + x("ax") + ")", "COUNT(*)", "LAG(" + x("ax") + ")", "LEAD(" + x("ax") + ", 1, 0)", "FIRST_VALUE(" + x("ax") + ")", "LAST_VALUE(" + x("ax") + ")", "LISTAGG(" + x("ax") + ", ',')", "MAX(" + x("ax") + " || 'm')", "NTILE(2)", "CUME_DIST()", "MEDIAN(" + x("ax") + ")"})
+		var parts []string
+		if fw.Pct(t, "anaPartition", 70) {
+			parts = append(parts, "PARTITION BY "+pexpr())
+		}
+		if fw.Pct(t, "anaOrder", 85) || strings.HasPrefix(fn, "NTILE") || strings.HasPrefix(fn, "LA") || strings.HasPrefix(fn, "LEAD") {
+			parts = append(parts, "ORDER BY "+oexpr())
+		}
+		return fn + " OVER (" + strings.Join(parts, " ") + ") AS " + alias
+	}
+	outerOrder := func(aliases []string) string {
+		var items []string
+		for i, n := 0, 1+fw.Uniform(t, "nOrderItems", 3); i < n; i++ {
+			pool := append([]string{x("oo"), x("oo") + " * 2", x("oo") + " || 'o'", "1", "-" + x("oo"), "(" + x("oo") + " IS NULL)"}, aliases...)
+			if len(aliases) > 0 && fw.Pct(t, "orderByAlias", 60) {
+				pool = aliases
+			}
+			items = append(items, fw.PickU(t, "orderItem", pool)+fw.PickU(t, "orderDir", []string{"", "", " DESC", " ASC NULLS LAST"}))
+		}
+		return " ORDER BY " + strings.Join(items, ", ")
+	}
+	var q string
+	switch fw.Weighted(t, "composeShape", []int{45, 15, 12, 10, 8, 10}) {
+	case 0: // analytic functions + outer ORDER BY on the computed columns
+		sel := []string{"*"}
+		aliases := []string{"r1"}
+		sel = append(sel, analytic("r1"))
+		if fw.Pct(t, "secondAnalytic", 50) {
+			sel = append(sel, analytic("r2"))
+			aliases = append(aliases, "r2")
+		}
+		if fw.Pct(t, "computedColumn", 40) {
+			sel = append(sel, x("cx")+" + 100 AS k1")
+			aliases = append(aliases, "k1")
+		}
+		q = "SELECT " + strings.Join(sel, ", ") + " FROM " + from
+		if fw.Pct(t, "outerWhere", 25) {
+			q += " WHERE " + x("wx") + " IS NOT NULL"
+		}
+		q += outerOrder(aliases)
+		if fw.Pct(t, "outerLimit", 30) {
+			q += fw.PickU(t, "limit", []string{" LIMIT 2", " LIMIT 1 WITH TIES", " LIMIT 50 PERCENT", " OFFSET 1"})
+		}
+		c.Name = "analytic+order"
+	case 1: // GROUP BY over the set operation, analytic function over the groups
+		g := x("gx")
+		q = fmt.Sprintf("SELECT %s, COUNT(*) AS n, MAX(%s) AS m, RANK() OVER (ORDER BY COUNT(*) DESC, %s) AS r FROM %s GROUP BY %s", g, x("mx"), g, from, g)
+		if fw.Pct(t, "having", 40) {
+			q += " HAVING COUNT(*) > 0"
+		}
+		q += " ORDER BY " + fw.PickU(t, "groupOrder", []string{"r, n", "n DESC, " + g, "m", "r DESC", g + " || 'g'"})
+		c.Name = "group+analytic+order"
+	case 2: // the analytic query is itself a subquery that is ordered and grouped outside
+		q = fmt.Sprintf("SELECT r1, COUNT(*) AS n FROM (SELECT *, %s FROM %s) q GROUP BY r1 ORDER BY n DESC, r1", analytic("r1"), from)
+		c.Name = "analytic in subquery+group"
+	case 3: // set operation at the top with ORDER BY on position / expression
+		q = setop + fw.PickU(t, "topOrder", []string{" ORDER BY 1", " ORDER BY x1 DESC", " ORDER BY 1 DESC LIMIT 2", " ORDER BY x1 || 's'", ""})
+		c.Name = "top set operation"
+	case 4: // common table expression, used twice
+		q = fmt.Sprintf("WITH ct AS (%s) SELECT p.*, %s FROM ct p JOIN ct q ON p.x1 = q.x1%s", setop, strings.Replace(analytic("r1"), "x", "p.x", -1), fw.PickU(t, "cteOrder", []string{" ORDER BY r1", " ORDER BY r1 DESC, p.x1", ""}))
+		c.Name = "cte+analytic"
+	default: // DISTINCT / IN subquery / scalar subquery over the set operation
+		q = fmt.Sprintf("SELECT DISTINCT %s, %s FROM %s WHERE %s IN (SELECT x1 FROM (%s) w) OR (SELECT COUNT(*) FROM (%s) v) > 100%s", x("dx"), analytic("r1"), from, x("ix"), setop, setop, outerOrder([]string{"r1"}))
+		c.Name = "distinct+in+analytic"
+	}
+	c.Args = []string{fmt.Sprintf("k=%d", k), fmt.Sprintf("setops=%d", strings.Count(setop, "SELECT")), fmt.Sprintf("union_all=%v", strings.Contains(setop, "UNION ALL")), fmt.Sprintf("analytics=%d", strings.Count(q, " OVER (")), fmt.Sprintf("partition=%v", strings.Contains(q, "PARTITION BY")), fmt.Sprintf("order_by_alias=%v", strings.Contains(q, "ORDER BY r") || strings.Contains(q, ", r"))}
+	if fw.Pct(t, "cpu", 20) {
+		q = "SET @@CPU TO 4; " + q
+	}
+	c.SQL = composeTables + q + ";"
+	return c
+}
